@@ -1209,6 +1209,10 @@ func (e *Env) call(x *ECall) *SV {
 		c.uses["str"] = true
 		c.declareFun("ext.strings.ToUpper", []string{"String"}, "String")
 		return &SV{S: "(ext.strings.ToUpper " + arg(0).S + ")", T: types.Typ[types.String]}
+	case "toLower":
+		c.uses["str"] = true
+		c.declareFun("ext.strings.ToLower", []string{"String"}, "String")
+		return &SV{S: "(ext.strings.ToLower " + arg(0).S + ")", T: types.Typ[types.String]}
 	case "trimSpace":
 		c.uses["str"] = true
 		c.declareFun("ext.strings.TrimSpace", []string{"String"}, "String")
